@@ -63,6 +63,9 @@ OPS = [
     ("update_parameter", {"name": "k", "factor": 2.0}),
     ("update_parameters", {"c_add": 1.0}),
     ("scale_parameter", {"name": "k", "factor": 0.5}),
+    ("update_parameter", {"name": "c", "set": 0.0}),  # exactly zero is a value like any other
+    ("update_parameters", {"c_set": 0}),
+    ("protocol", {"steps": 2, "zero": True}),          # a protocol whose first step switches the influx off (c = 0)
     ("update_variable", {"value": 2.0}),
     ("update_variables", {"value": 0.5}),
     ("update_variables", {"value": "recorded"}),  # back to the last recorded value (read from the result) - e.g. after another override
@@ -70,6 +73,7 @@ OPS = [
     ("clear_results", {}),
 ]
 PROTOCOL = [(0.5, {"k": 2.0}), (1.0, {"k": 0.5})]
+PROTOCOL_ZERO = [(0.5, {"c": 0.0}), (1.0, {"c": 2.0})]
 # "rich": the same equations as "auto", but k and x reach the rate through a derived parameter and a derived
 # variable (every parameter update has something to re-resolve; a lean model has nothing)
 VARIANTS = {"auto": {"k": 1.0, "c": 2.0, "a": 0.0}, "timedep": {"k": 1.0, "c": 2.0, "a": 0.5}, "rich": {"k": 1.0, "c": 2.0, "a": 0.0}}
@@ -181,7 +185,7 @@ def apply_real(sim, op, T):
             pts = _int_points(T)
             sim.simulate_time_course(pts if a["as"] == "list" else np.array(pts, dtype=int))
         elif name == "protocol":
-            sim.simulate_protocol(mxlpy.make_protocol(PROTOCOL), time_points_per_step=a["steps"])
+            sim.simulate_protocol(mxlpy.make_protocol(PROTOCOL_ZERO if a.get("zero") else PROTOCOL), time_points_per_step=a["steps"])
         elif name == "protocol_time_course":
             pts = a["points"] if a["relative"] else [T + r for r in a["points"]]
             arr = np.array(pts, dtype=float)
@@ -196,8 +200,12 @@ def apply_real(sim, op, T):
             sim.simulate_protocol_time_course(mxlpy.make_protocol(PROTOCOL), arr, time_points_as_relative=a["relative"])
             if a.get("shared") and arr.tolist() != [float(p) for p in pts]:
                 return "raised", f"CallerArrayModified: the caller's time-point array was changed in place: {arr.tolist()} instead of {pts}"
+        elif name == "update_parameter" and "set" in a:
+            sim.update_parameter(a["name"], a["set"])
         elif name == "update_parameter":
             sim.update_parameter(a["name"], sim.model.get_parameter_values()[a["name"]] * a["factor"])
+        elif name == "update_parameters" and "c_set" in a:
+            sim.update_parameters({"c": a["c_set"]})
         elif name == "update_parameters":
             sim.update_parameters({"c": sim.model.get_parameter_values()["c"] + a["c_add"]})
         elif name == "scale_parameter":
@@ -253,9 +261,10 @@ def apply_ref(ref: Reference, op):
             if pts[-1] <= T:
                 return "refuse"
         t = T
-        end = T + sum(d for d, _ in PROTOCOL)
+        proto = PROTOCOL_ZERO if a.get("zero") else PROTOCOL
+        end = T + sum(d for d, _ in proto)
         bounds = []
-        for d, pars in PROTOCOL:
+        for d, pars in proto:
             ref.params.update(pars)
             t += d
             ref._segment(t)
@@ -265,10 +274,10 @@ def apply_ref(ref: Reference, op):
             ref.requested.extend(p for p in pts if T < p <= end and all(abs(p - b) > 1e-12 for b in bounds))
         return "ok"
     if name == "update_parameter":
-        ref.params[a["name"]] *= a["factor"]
+        ref.params[a["name"]] = float(a["set"]) if "set" in a else ref.params[a["name"]] * a["factor"]
         return "ok"
     if name == "update_parameters":
-        ref.params["c"] += a["c_add"]
+        ref.params["c"] = float(a["c_set"]) if "c_set" in a else ref.params["c"] + a["c_add"]
         return "ok"
     if name == "scale_parameter":
         ref.params[a["name"]] *= a["factor"]
